@@ -247,3 +247,49 @@ def mm_phase(name, extra_props=()):
                 ensures=[C("frame", "pool_phase_frame(state, res) && res.fee_pool == state.fee_pool", "C15", "C17", "C05"),
                          C("inv", "state_inv(res) && pools_ok(res.pools@)", "C20", "C16"),
                          C("builtins", "builtins_live(res) && (forall|k: PoolKey| state.pools@.contains_key(k) ==> #[trigger] res.pools@.contains_key(k))", "C16")])
+
+# ---- batch application (src/state/applytx.rs)
+def ap_extract_input_coins():
+    return dict(
+        requires=[C("wf", "state.coins.wf()")],
+        ensures=[C("dom", "res is Ok ==> forall|id: CoinID| #[trigger] res->Ok_0@.contains_key(id) <==> (spent_by(transactions@, transactions@.len() as int, id) && !coins_so_far@.contains_key(id))", "C02"),
+                 C("val", "res is Ok ==> forall|id: CoinID| #[trigger] res->Ok_0@.contains_key(id) ==> state.coins@.coins.contains_key(id) && res->Ok_0@[id] == state.coins@.coins[id]", "C02"),
+                 C("err", """res is Err ==> res->Err_0 is NonexistentCoin && spent_by(transactions@, transactions@.len() as int, res->Err_0->NonexistentCoin_0)
+                        && !coins_so_far@.contains_key(res->Err_0->NonexistentCoin_0) && !state.coins@.coins.contains_key(res->Err_0->NonexistentCoin_0)""", "C02")])
+
+def ap_create_next_state():
+    return dict(
+    requires=[
+        C("wf", "next_state.coins.wf() && (is_tip_906 ==> counts_ok(next_state.coins@)) && is_tip_906 == spec_tip906(next_state) && origin_ok(next_state.coins@.coins)"),
+        C("wellformed", "forall|q: int| 0 <= q < transactions@.len() ==> spec_well_formed(#[trigger] transactions@[q])"),
+        C("rel", "rel_consistent(transactions@, relevant_coins@)"),
+        C("fees_fit", "next_state.fee_pool.0 + next_state.tips.0 + fsum(transactions@, fee_of()) <= u128::MAX",
+          note="C09 envelope: fee pool + tips + the batch's fees fit in u128 (MEL supply <= 2^127)"),
+    ],
+    ensures=[
+        C("coins", "res is Ok ==> batch_coins(next_state.coins@.coins, res->Ok_0.coins@.coins, transactions@, relevant_coins@)", "C02", "C01", "C19", "C03"),
+        C("frame", """res is Ok ==> res->Ok_0.network == next_state.network && res->Ok_0.height == next_state.height && res->Ok_0.history == next_state.history
+               && res->Ok_0.fee_multiplier == next_state.fee_multiplier && res->Ok_0.dosc_speed == next_state.dosc_speed
+               && res->Ok_0.pools == next_state.pools && res->Ok_0.stakes == next_state.stakes""", "C02", "C05", "C17"),
+        C("min_fee", "res is Ok ==> forall|q: int| 0 <= q < transactions@.len() ==> (#[trigger] transactions@[q]).fee.0 >= spec_base_fee(transactions@[q], next_state.fee_multiplier)", "C05"),
+        C("fee_split", """res is Ok ==> res->Ok_0.fee_pool.0 as int == next_state.fee_pool.0 + fsum(transactions@, min_fee_of(next_state.fee_multiplier))
+               && res->Ok_0.tips.0 as int == next_state.tips.0 + fsum(transactions@, tip_of(next_state.fee_multiplier))""", "C05", "C01"),
+        C("fee_reject", """res is Err && res->Err_0 is InsufficientFees ==> exists|q: int, m: u128| 0 <= q < transactions@.len()
+               && (#[trigger] transactions@[q]).fee.0 < #[trigger] spec_base_fee(transactions@[q], m) && (res->Err_0->InsufficientFees_0).0 == spec_base_fee(transactions@[q], m)""", "C05", char=True,
+          note="a batch is refused for fees only if some transaction pays strictly less than its minimum fee (the multiplier is existentially quantified: Verus loses the initial value of a `mut` parameter inside later loops)"),
+        C("txs", "res is Ok ==> forall|h: TxHash| #[trigger] res->Ok_0.transactions@.contains_key(h) <==> (next_state.transactions@.contains_key(h) || in_batch(transactions@, transactions@.len() as int, h))", "C02", "C06"),
+        C("faucets", """res is Ok ==> forall|q: int| 0 <= q < transactions@.len() && (#[trigger] transactions@[q]).kind == TxKind::Faucet ==>
+               !(next_state.network == NetID::Mainnet && !is_grandfathered(spec_txhash(transactions@[q])))
+               && (!is_grandfathered(spec_txhash(transactions@[q])) ==> !next_state.coins@.coins.contains_key(spec_marker(spec_txhash(transactions@[q]))))""", "C19"),
+        C("wf", "res is Ok ==> res->Ok_0.coins.wf() && origin_ok(res->Ok_0.coins@.coins)", "C20"),
+        C("counts", "res is Ok && is_tip_906 ==> counts_ok(res->Ok_0.coins@)", "C20"),
+        C("counts_frame", "res is Ok && !is_tip_906 ==> res->Ok_0.coins@.counts == next_state.coins@.counts", "C20"),
+    ])
+
+def ap_load_relevant_coins():
+    return dict(
+        requires=[C("wf", "this.coins.wf()")],
+        ensures=[C("rel", "res is Ok ==> rel_of(*this, txx@, res->Ok_0@)", "C02", "C01"),
+                 C("wellformed", "res is Ok ==> forall|q: int| 0 <= q < txx@.len() ==> spec_well_formed(#[trigger] txx@[q]) && outputs_fit(txx@[q])", "C02", "C09"),
+                 C("nodup", "res is Ok ==> inputs_distinct(txx@)", "C02"),
+                 C("err", "res is Err ==> res->Err_0 is MalformedTx || res->Err_0 is NonexistentCoin", "C02", char=True)])
